@@ -196,7 +196,7 @@ def call_check(part, case, ctx):
             inner = own[-1]
             outer = [f for f in frames if os.path.abspath(f.filename).startswith(HERE + os.sep)]
             where = f"{os.path.basename(outer[-1].filename)}:{outer[-1].name}" if outer else "?"
-            raise Violation("labrea-raised-on-valid-program",
+            raise Violation(f"labrea-raised-on-valid-program:{type(e).__name__}",
                             f"{type(e).__name__}: {e} raised from labrea/{os.path.relpath(inner.filename, pkg)}:{inner.lineno} ({inner.name}) "
                             f"while the harness was in {where}: on the reference every generated program can be built and driven") from e
         raise
